@@ -140,11 +140,21 @@ def corpus():
     yield {"k": "c11.cc", "c0": [0.0, 0.0, 1.0], "c1": [2.0, 0.0, 1.0], "cls": "ext_tangent"}
 
 
+def gen_boxes(rng):
+    cx, cy, rad = rng.uniform(-20, 20), rng.uniform(-20, 20), rng.uniform(0.3, 8)
+    a0, ext, n = rng.uniform(0, 2 * math.pi), rng.uniform(1.5, 6.2), rng.choice([6, 15, 40])
+    pts = [[cx + (rad + rng.uniform(-1e-3, 1e-3)) * math.cos(a0 + ext * i / (n - 1)), cy + (rad + rng.uniform(-1e-3, 1e-3)) * math.sin(a0 + ext * i / (n - 1))] for i in range(n)]
+    g = [cx + rng.uniform(-0.3, 0.3) * rad, cy + rng.uniform(-0.3, 0.3) * rad, rad * rng.uniform(0.7, 1.4)]
+    return {"k": "c11.boxes", "pts": pts, "guess": g}
+
+
 def generate(rng, tier):
     n = 100 if tier == "quick" else 1500
     out = []
     for _ in range(n):
         out += [gen_cc(rng), gen_tangent(rng), gen_line(rng), gen_arc3(rng), gen_arc(rng)]
+    for _ in range(n // 5):
+        out += [gen_boxes(rng)]
     return out
 
 
@@ -270,6 +280,15 @@ def oracle(c, r):
         want = ([c0[0] - c0[2], c0[1] - c0[2]], [c0[0] + c0[2], c0[1] + c0[2]])
         if dist(mins, want[0]) > 1e-9 or dist(maxs, want[1]) > 1e-9:
             yield ("circle-aabb", "circle bounding box %r, expected %r" % (r["aabb0"], want))
+    elif k == "c11.boxes":
+        for o in r["out"]:
+            x, y, rad = o["c"]
+            want = ([x - rad, y - rad], [x + rad, y + rad])
+            for nm in ("aabb", "arc"):
+                mins, maxs = o[nm]
+                if dist(mins, want[0]) > 1e-9 * max(1.0, abs(x), abs(y), rad) or dist(maxs, want[1]) > 1e-9 * max(1.0, abs(x), abs(y), rad):
+                    yield ("circle-aabb", "circle (%r, %r, r %r) made by %s carries the %s %r, its box is %r" % (x, y, rad, o["how"], "cached box" if nm == "aabb" else "full-arc box", o[nm], want))
+                    return
     elif k == "c11.tangent":
         c0, p = c["c0"], c["p"]
         d = dist(c0, p)
